@@ -255,13 +255,31 @@ ROUND6 = {
 }
 
 
+ROUND7 = {
+    "C01": " One scheme object builds index after index of a changing collection, each dropped before the next (object lifetime, id() reuse), with one key and with a new key object per generation.",
+    "C02": " The same dropped-index generations judged on absent keywords.",
+    "C03": " Dropped-index generations through tokens; 900 small services, one upload and one search each, on the real server.",
+    "C04": " The second build is also made by a copy (deepcopy / pickle round trip) of the scheme object that made the first.",
+    "C05": " A PiPtr family with more than 256 array cells (two-byte pointers).",
+    "C07": " The caller extends every answer it is handed; dropped-index generations.",
+    "C08": " An accepted default configuration on one long-lived scheme object through dropped-index generations.",
+    "C11": " A last encrypt probe with a database that holds no posting: refused without effect or accepted with its flag.",
+    "C12": " A full garbage collection while connections are open and staged collections before the probe in a sixth of the schedules.",
+    "C13": " After a crash in any step but create-service a client that no longer knows its service has NOT recovered.",
+    "C14": " The cipher object is copied by the caller (copy, deepcopy, pickle) after use; original and copies must not repeat ciphertexts.",
+    "C15": " Inputs that are instances of a caller-side subclass of Bitset.",
+    "C18": " The bit string handed to the halving helpers stays as it was; bool indices.",
+    "C19": " Indices spelled as bool or as objects with __index__.",
+}
+
+
 def main():
     checks = []
     for pid in ALL:
         if pid not in CHECKS:
             continue
         cat, tech, text, note, ref = CHECKS[pid]
-        text = text + ROUND3.get(pid, "") + ROUND4.get(pid, "") + ROUND5.get(pid, "") + ROUND6.get(pid, "")
+        text = text + ROUND3.get(pid, "") + ROUND4.get(pid, "") + ROUND5.get(pid, "") + ROUND6.get(pid, "") + ROUND7.get(pid, "")
         checks.append({
             "property_id": pid,
             "quick_cmd": f"./check {pid} quick",
